@@ -1537,8 +1537,8 @@ fn configs(tier: Tier) -> Vec<(Cfg, Plan)> {
     for a in 1..=3usize {
         for (i, r) in OA8.into_iter().enumerate() {
             let (qd, td) = match a {
-                1 => (if i % 2 == 0 { 7 } else { 6 }, 9),
-                2 => (6, 8),
+                1 => (if i % 2 == 0 { 7 } else { 6 }, if i % 2 == 0 { 9 } else { 8 }),
+                2 => (6, if i % 2 == 0 { 8 } else { 7 }),
                 _ => (5, 7),
             };
             add(row(a, r), qd, td);
@@ -1629,8 +1629,8 @@ fn configs(tier: Tier) -> Vec<(Cfg, Plan)> {
                 continue;
             }
             c.ipc = true;
-            pl.tree_depth = if c.max_clients + c.max_servers > 2 { 3 } else { 4 };
-            pl.frontier = Some((150, 8));
+            pl.tree_depth = (if c.max_clients + c.max_servers > 2 { 3usize } else { 4 }).saturating_sub(less).max(2);
+            pl.frontier = Some((if less == 0 { 150 } else { 80 }, 8));
             pl.split = 1;
             v.push((c, pl));
         }
